@@ -1,85 +1,132 @@
 /-
-  Model/C20: state sync — `merkleBuilder` (common/merkle/builder.go) driven by
-  `mpt.Resolve` / `nodeRequester.OnData` / `mpt.resolve` (common/trie/ompt/mpt.go,
-  branch.go, extension.go, leaf.go `resolve`).
+  Model/C20: state sync — `merkleBuilder` (common/merkle/builder.go `OnData` / `RequestData`)
+  driven by `mpt.Resolve` / `nodeRequester.OnData` / `mpt.resolve` (common/trie/ompt/mpt.go,
+  branch.go, extension.go, leaf.go `resolve`) and by `trie.Object.Resolve` of the trie's values.
+
+  Buckets are explicit (`Bkt := Nat`; the driver uses 0 = db.MerkleTrie, 1 = db.BytesByHash).
+  All buckets share one hasher (both are sha3-256 in the code), hence one request map.
 
   Parameters (never axioms):
-    `H`     the bucket's hash function (sha3-256 for db.MerkleTrie)
-    `refs`  decoding of a node payload into the hashes of its children that are
-            *hash links*, in the order `resolve` visits them (branch children
-            0..15, extension next); `none` = `deserialize` fails.
-            Embedded (< 32 byte) children never contain hash links, and
-            `mpt.resolve` does not descend into them (realize succeeds) — so
-            they contribute nothing.  Leaf values are `bytesObject`s whose
-            `Resolve` is a no-op.
+    `H`     the hash function of the buckets
+    `refs`  `refs b payload`: what the requester registered for bucket `b` asks for after it
+            received `payload`, in the order it asks: for a trie node (`nodeRequester.OnData` =
+            `deserialize` + `resolve`) the children that are *hash links* (branch children 0..15,
+            extension next), as references into the trie bucket, then the blob the node's own
+            value refers to (the value's `Resolve`), as a reference into the blob bucket; for a
+            blob requester nothing.  `none` = the requester's `OnData` fails (`deserialize` error).
+            Embedded (< 32 byte) children never contain hash links, and `mpt.resolve` does not
+            descend into them (realize succeeds) — so they contribute nothing.
   State:
-    `store`  the builder's database bucket as an association list (newest first)
-    `reqs`   `merkleBuilder.requests`: outstanding request keys in list order
-             (one bucket/hasher; the per-request requester list is not observable
-             for a single trie and is left out)
+    `store`  the builder's database: (bucket, key, value) entries, newest first
+    `reqs`   `merkleBuilder.requests`: outstanding requests in list order; a request has a key and
+             the buckets of its requesters in registration order (`request.bucketIDs`); the
+             `hasherMap` entry of a key is the request with that key
     `resolved`
 -/
 import Goloop.Base.Bytes
 namespace Goloop.C20
 
+abbrev Bkt := Nat
+/-- a reference: bucket and key -/
+abbrev Ref := Bkt × Bytes
+/-- a database entry: bucket, key, value -/
+abbrev Entry := Bkt × Bytes × Bytes
+
 structure Cfg where
   H : Bytes → Bytes
-  refs : Bytes → Option (List Bytes)
+  refs : Bkt → Bytes → Option (List Ref)
+
+structure Req where
+  key : Bytes
+  bkts : List Bkt
+deriving Repr, DecidableEq
 
 structure St where
-  store : List (Bytes × Bytes) := []
-  reqs : List Bytes := []
+  store : List Entry := []
+  reqs : List Req := []
   resolved : Nat := 0
 deriving Repr
 
-def has (store : List (Bytes × Bytes)) (k : Bytes) : Bool := store.any (fun e => e.1 == k)
+/-- `bucket.Get(key)`: the newest value set under (bucket, key) -/
+def lookup (store : List Entry) (p : Ref) : Option Bytes :=
+  (store.find? fun e => e.1 == p.1 && e.2.1 == p.2).map (·.2.2)
+
+/-- what `resolve` asks before requesting a reference: the trie realises the node from its bucket
+    (`mpt.realize`: `bucket.Get` then `deserialize`, either may fail), an object value looks the blob
+    up in its bucket.  Present = stored and accepted by the requester of that bucket. -/
+def present (cfg : Cfg) (store : List Entry) (p : Ref) : Bool :=
+  match lookup store p with
+  | none => false
+  | some v => (cfg.refs p.1 v).isSome
 
 /-- `list.InsertAfter(req, mark)` where `mark` is the element at index `i`. -/
-def insertAfter (l : List Bytes) (i : Nat) (k : Bytes) : List Bytes :=
+def insertAfter {α : Type} (l : List α) (i : Nat) (k : α) : List α :=
   l.take (i + 1) ++ k :: l.drop (i + 1)
 
-/-- `RequestData` for one bucket: a key already requested only gets another requester (not
-    observable); otherwise inserted after `onDataMark` (which then moves to the new element)
+/-- `req.bucketIDs = append(req.bucketIDs, bid)` on the request the map holds for `k` -/
+def addBkt (reqs : List Req) (b : Bkt) (k : Bytes) : List Req :=
+  reqs.map fun r => if r.key == k then { r with bkts := r.bkts ++ [b] } else r
+
+def hasKey (reqs : List Req) (k : Bytes) : Bool := reqs.any (·.key == k)
+
+/-- `RequestData(b, k, requester)`: a key already requested gets another bucket/requester;
+    otherwise a new request is inserted after `onDataMark` (which then moves to the new element)
     or pushed back when there is no mark. -/
-def requestData (reqs : List Bytes) (mark : Option Nat) (k : Bytes) : List Bytes × Option Nat :=
-  if reqs.contains k then (reqs, mark)
+def requestData (reqs : List Req) (mark : Option Nat) (b : Bkt) (k : Bytes) : List Req × Option Nat :=
+  if hasKey reqs k then (addBkt reqs b k, mark)
   else match mark with
-    | none => (reqs ++ [k], none)
-    | some i => (insertAfter reqs i k, some (i + 1))
+    | none => (reqs ++ [⟨k, [b]⟩], none)
+    | some i => (insertAfter reqs i ⟨k, [b]⟩, some (i + 1))
 
-/-- `mpt.resolve` on a hash link: nothing if the node can be realised from the store,
-    a request otherwise. -/
-def resolveRef (store : List (Bytes × Bytes)) (acc : List Bytes × Option Nat) (c : Bytes) :
-    List Bytes × Option Nat :=
-  if has store c then acc else requestData acc.1 acc.2 c
+/-- `mpt.resolve` on a hash link / `Object.Resolve` on a blob reference: nothing if the datum is
+    present in its own bucket, a request otherwise. -/
+def resolveRef (cfg : Cfg) (store : List Entry) (acc : List Req × Option Nat) (p : Ref) :
+    List Req × Option Nat :=
+  if present cfg store p then acc else requestData acc.1 acc.2 p.1 p.2
 
-def resolveRefs (store : List (Bytes × Bytes)) (acc : List Bytes × Option Nat) (cs : List Bytes) :
-    List Bytes × Option Nat :=
-  cs.foldl (resolveRef store) acc
+def resolveRefs (cfg : Cfg) (store : List Entry) (acc : List Req × Option Nat) (ps : List Ref) :
+    List Req × Option Nat :=
+  ps.foldl (resolveRef cfg store) acc
 
-/-- `mpt.Resolve(builder)` for a trie whose root hash is `root` (`none` = empty trie). -/
-def start (s : St) (root : Option Bytes) : St :=
+/-- `mpt.Resolve(builder)` for a trie (bucket 0) whose root hash is `root` (`none` = empty trie). -/
+def start (cfg : Cfg) (s : St) (root : Option Bytes) : St :=
   match root with
   | none => s
-  | some r => { s with reqs := (resolveRef s.store (s.reqs, none) r).1 }
+  | some r => { s with reqs := (resolveRef cfg s.store (s.reqs, none) (0, r)).1 }
 
 inductive Res | ok | noRequester | decodeError
 deriving DecidableEq, Repr
 
-/-- `merkleBuilder.OnData(bucket, value)`. -/
-def onData (cfg : Cfg) (s : St) (value : Bytes) : St × Res :=
-  let key := cfg.H value
-  match s.reqs.idxOf? key with
-  | none => (s, .noRequester)
-  | some i =>
-    let store' := (key, value) :: s.store          -- bk.Set(key, value) happens before the requester runs
-    match cfg.refs value with
-    | none => ({ s with store := store' }, .decodeError)   -- request stays outstanding
-    | some cs =>
-      let (reqs', _) := resolveRefs store' (s.reqs, some i) cs
-      ({ store := store', reqs := reqs'.eraseIdx i, resolved := s.resolved + 1 }, .ok)
+/-- the requester loop of `OnData`: for every requester of the request, in registration order,
+    `bk.Set(key, value)` into *its* bucket, then the requester's `OnData` (its references are
+    resolved against the store that already holds the new entry).  A failing requester ends the
+    loop: what was stored and requested so far stays.  `false` = failed. -/
+def serve (cfg : Cfg) (key value : Bytes) :
+    List Bkt → List Entry → List Req × Option Nat → List Entry × (List Req × Option Nat) × Bool
+  | [], st, acc => (st, acc, true)
+  | b :: bs, st, acc =>
+    match cfg.refs b value with
+    | none => ((b, key, value) :: st, acc, false)
+    | some ps => serve cfg key value bs ((b, key, value) :: st)
+                   (resolveRefs cfg ((b, key, value) :: st) acc ps)
 
-/-- run a whole delivery history -/
-def runAll (cfg : Cfg) (s : St) (vs : List Bytes) : St := vs.foldl (fun s v => (onData cfg s v).1) s
+/-- `merkleBuilder.OnData(bid, value)`.  `bid` only selects the hasher; there is one. The loop
+    ranges over the requesters the request had when the loop started (`range req.requesters`);
+    a requester appended meanwhile to this very request is dropped with it. -/
+def onData (cfg : Cfg) (s : St) (_bid : Bkt) (value : Bytes) : St × Res :=
+  let key := cfg.H value
+  match s.reqs.find? (·.key == key) with
+  | none => (s, .noRequester)
+  | some r =>
+    let i := s.reqs.findIdx (·.key == key)                    -- onDataMark = e
+    let S := serve cfg key value r.bkts s.store (s.reqs, some i)
+    if S.2.2 then
+      ({ store := S.1, reqs := S.2.1.1.eraseP (·.key == key), resolved := s.resolved + 1 }, .ok)
+    else
+      ({ s with store := S.1, reqs := S.2.1.1 }, .decodeError)   -- request stays outstanding
+
+/-- run a whole delivery history of (bid, value) -/
+def runAll (cfg : Cfg) (s : St) (vs : List (Bkt × Bytes)) : St :=
+  vs.foldl (fun s d => (onData cfg s d.1 d.2).1) s
 
 end Goloop.C20
